@@ -64,6 +64,23 @@ def discharge(ob, timeout_ms=20000, seed=0, both=False):
     for p in ob.pc:
         s.add(p)
     if ob.expect_sat:
+        from .engine import has_quantifier
+
+        if any(has_quantifier(p) for p in ob.pc):
+            # quantified facts over sequences (membership-quantified invariants): z3 finds no model by itself, but
+            # does when the sequences of records/tuples of the pre-state are empty (a stronger query: `sat` is conclusive)
+            pre = ob.info.get('prestate')
+            terms, seen = [], set()
+            if pre is not None:
+                for v in list(pre['env'].values()) + [pre['ghost']]:
+                    _seq_syms(v, pre['heap'], terms, seen, only_structured=True)
+            s1 = _solver(int(timeout_ms), seed)
+            for p in ob.pc:
+                s1.add(p)
+            for t in terms:
+                s1.add(t == z3.Empty(t.sort()))
+            if s1.check() == z3.sat:
+                return {'status': 'proved', 'backend': 'z3', 'time': time.time() - t0, 'detail': 'cover sat (with empty record lists)'}
         r = s.check()
         dt = time.time() - t0
         if r == z3.sat:
@@ -104,6 +121,28 @@ def discharge(ob, timeout_ms=20000, seed=0, both=False):
         res = {'status': 'proved', 'backend': 'z3', 'time': time.time() - t0}
     elif r == z3.sat:
         res = {'status': 'refuted', 'backend': 'z3', 'time': time.time() - t0, 'model': small_model(ob, s)}
+    if res is None and not both:
+        from .engine import has_quantifier
+
+        if any(has_quantifier(p) for p in ob.pc):
+            # counter-model search under quantified hypotheses: give the lists of records of the pre-state an explicit
+            # spine of 0..2 elements (membership then unfolds to equalities and z3 finds models); only `sat` is used
+            pre = ob.info.get('prestate')
+            terms, seen = [], set()
+            if pre is not None:
+                for v_ in list(pre['env'].values()) + [pre['ghost']]:
+                    _seq_syms(v_, pre['heap'], terms, seen, only_structured=True)
+            for n in ((0, 1, 2) if terms else ()):
+                s1 = _solver(min(int(timeout_ms), 4000), seed)
+                for p in ob.pc:
+                    s1.add(p)
+                s1.add(z3.Not(ob.goal))
+                for ti, t in enumerate(terms):
+                    es = [z3.Const(f'spine!{ti}!{j}', t.sort().basis()) for j in range(n)]
+                    s1.add(t == (z3.Empty(t.sort()) if n == 0 else (z3.Unit(es[0]) if n == 1 else z3.Concat(*[z3.Unit(e) for e in es]))))
+                if s1.check() == z3.sat:
+                    res = {'status': 'refuted', 'backend': 'z3', 'time': time.time() - t0, 'model': s1.model(), 'detail': f'counter-model with record lists of length {n}'}
+                    return res
     if res is None or both:
         v, msg = run_cvc5(smt2, timeout_ms)
         if res is not None:
@@ -139,7 +178,31 @@ def discharge(ob, timeout_ms=20000, seed=0, both=False):
     return res
 
 
-def _seq_syms(v, heap, out, seen):
+def _seq_syms(v, heap, out, seen, only_structured=False):
+    if only_structured:
+        # sequences of records / tuples / opaque identities only (not byte strings, not lists of ints)
+        def walk(x):
+            if isinstance(x, Sym):
+                if isinstance(x.k, tuple) and x.k[0] == 'seq' and isinstance(x.k[1], tuple):
+                    out.append(x.t)
+            elif isinstance(x, tuple):
+                for y in x:
+                    walk(y)
+            elif isinstance(x, Ref) and x.oid not in seen and x.oid in heap:
+                seen.add(x.oid)
+                o = heap[x.oid]
+                if isinstance(o, LObj):
+                    if o.items is not None:
+                        for y in o.items:
+                            walk(y)
+                    elif o.sym is not None:
+                        walk(o.sym)
+                elif isinstance(o, Obj):
+                    for y in o.fields.values():
+                        walk(y)
+
+        walk(v)
+        return
     if isinstance(v, Sym):
         if v.k == 'bytes' or (isinstance(v.k, tuple) and v.k[0] == 'seq'):
             out.append(v.t)
@@ -246,6 +309,9 @@ def model_value(model, v, heap, memo=None):
             r = None
         memo[v.oid] = r
         return r
+    if type(v).__name__ == 'ElemRef':
+        # reference to a record of a symbolic map: the key (the records themselves are in the map's description)
+        return {'__rec__': eval_term(model, v.key.t, 'int') if isinstance(v.key, Sym) else v.key}
     if type(v).__name__ == 'CallbackVal':
         return {'__callback__': v.name}
     if type(v).__name__ in ('Func', 'Bound', 'Builtin', 'OpaqueStr', 'Unknown'):
@@ -258,7 +324,7 @@ def eval_term(model, t, kind):
         r = model.eval(t, model_completion=True)
         # an opaque object identity: rebuilt natively as a unique (truthy, hashable) token per id
         return {'__opq__': [str(kind[1]), r.as_long() if z3.is_int_value(r) else 0]}
-    if kind == 'int':
+    if kind == 'int' or (isinstance(kind, tuple) and kind[0] == 'rec'):
         r = model.eval(t, model_completion=True)
         return r.as_long() if z3.is_int_value(r) else 0
     if kind == 'bool':
@@ -292,7 +358,9 @@ def map_value(model, o):
     store/select terms are not enumerable in general; evaluate the domain array
     as a function graph"""
     dom = model.eval(o.dom, model_completion=True)
-    keys = set()
+    # an integer constant the model leaves unassigned evaluates to 0 under model completion (that is what the
+    # rebuilt pre-state uses for it), so 0 is always a candidate key
+    keys = {0}
     # candidate keys: every integer constant of the model (parameters, havoc'd locals, ...)
     try:
         for d in model.decls():
@@ -300,6 +368,14 @@ def map_value(model, o):
                 v = model[d]
                 if z3.is_int_value(v):
                     keys.add(v.as_long())
+            elif d.arity() == 0 and d.range() == z3.SeqSort(z3.IntSort()):
+                # keys also travel in sequences (lists of record references)
+                t = d()
+                n = model.eval(z3.Length(t), model_completion=True)
+                for i in range(min(n.as_long() if z3.is_int_value(n) else 0, 64)):
+                    v = model.eval(t[z3.IntVal(i)], model_completion=True)
+                    if z3.is_int_value(v):
+                        keys.add(v.as_long())
     except z3.Z3Exception:
         pass
     _array_keys(dom, keys)
